@@ -153,11 +153,17 @@ func apiServerChild() int {
 		}
 	}
 	ctrlIP := nodeIP(st.slot, 200)
+	if st.ctrlLn != nil {
+		// the bring-up registered through the stack's own REST listener: replace it by the recorded one
+		st.ctrlLn.Close()
+		st.ctrlLn = nil
+	}
 	ln, err := net.Listen("tcp", ctrlIP+":9501")
 	if err != nil {
 		fmt.Fprintln(os.Stderr, "listen:", err)
 		return 3
 	}
+	st.ctrlLn, st.CtrlIP = ln, ctrlIP
 	crouter := pr.wrap("controller", controllerrest.NewRouter(controllerrest.NewServer(st.C)))
 	go http.Serve(ln, crouter)
 
